@@ -212,13 +212,18 @@ struct ParserWorld : World {
 		}
 		// single-fault enumeration
 		int only_kind = (int) p.get("only_kind"); size_t only_at = (size_t) p.get("only_at");
-		size_t stride = text.size() > 600 ? text.size() / 300 : 1;
+		// work per run is bounded: about 8 million characters through the parser per fault kind (a 250 KB text gets some 70 cut points and
+		// 34 allocation indices instead of 300 and 400), so that no run comes near the watchdog on a loaded machine
+		const size_t budget = 8u << 20;
+		size_t points = std::max<size_t>(8, std::min<size_t>(300, budget / (text.size() / 2 + 1)));
+		size_t stride = text.size() > 600 ? std::max<size_t>(text.size() / 300, text.size() / points) : 1;
+		size_t max_alloc = std::max<size_t>(8, std::min<size_t>(400, budget / (text.size() + 1)));
 		for (int kind = 1; kind <= 3; ++kind) {
 			if (only_kind && kind != only_kind) continue;
 			size_t limit = kind == 3 ? (size_t) base_allocs : text.size();
-			for (size_t at = kind == 3 ? 1 : 0; at <= limit; at += (kind == 3 ? 1 : stride)) {
-				if (only_kind && only_at && at != only_at) continue;
-				if (kind == 3 && at > 400) break;
+			bool single = only_kind && only_at;       // a minimised plan names its fault point
+			for (size_t at = single ? only_at : kind == 3 ? 1 : 0; at <= limit; at += (kind == 3 ? 1 : stride)) {
+				if (kind == 3 && at > max_alloc && !single) break;
 				node root; std::vector<Snap> before; make_target(root, before);
 				size_t live_before = ledger_live(); uint64_t mark = ledger_mark();
 				Outcome o = parse_once(root, text, fmt, sect, opt, kind == 1 ? at : (size_t) -1, kind == 2 ? at : (size_t) -1, kind == 3 ? at : 0);
@@ -230,6 +235,7 @@ struct ParserWorld : World {
 				st.state(302 + kind, o.rc < 0 ? 0 : 1, (uint64_t) (at == 0) + 2 * (at == limit) + 4 * (pre.empty() ? 0 : 1));
 				{ Sut s; mpt_node_clear(&root); }
 				if (ledger_live()) fail("leak", "%s at %zu: after the parse (%d) and destruction of the tree %zu block(s) stay allocated: %s", kn, at, o.rc, ledger_live(), ledger_describe().c_str());
+				if (single) break;
 			}
 		}
 		(void) base_rc;
